@@ -37,6 +37,7 @@ def run(ctx):
         batching.check_batched(ctx, fi, "wavefunctions.wave_function")
     restricted_default(ctx, "force_bias")
     s = Sib(ctx)
+    s.auto_helper_mirrors(["_overlap_with_rot_sd"])
     s.rhf_restricted_vs_unrestricted("force_bias")
     s.cisd_overlap_ratio()
     s.ucisd_overlap_ratio()
